@@ -322,8 +322,8 @@ EXTRA = {
     "C04": " End to end: c04_gathered_roundtrip - for library collectors registered on a registry that new_custom accepts (C09's hypotheses) whose "
            "same-name collectors share a type (C14's hypothesis) and whose strings are Rust Strings, encode (gather_families ...) succeeds and parses back "
            "to view (gather_families ...); c04_gathered_never_errs. Proving it exposed the reserved-le defect (common label le), repaired in /repo.",
-    "C05": " c05_spec_model_partial: for every collision-free scenario of the covered language (one counter/gauge vector with all request, update, "
-           "remove, reset, clone and local-counter-vector operations, or one histogram vector without local vectors) the executable spec written from "
+    "C05": " c05_spec_model: for every collision-free scenario of the generator's complete language (one vector of any of the five kinds with all request, "
+           "update, remove, reset, clone, drop and local-vector operations) the executable spec written from "
            "the property text is true of the model's own run; c05_model_violation_needs_collision: there the model can contradict the text only through "
            "two different tuples with one FNV-1a-64 key (the known class).",
     "C06": " CONCURRENT histories (calls issued from several threads must behave as if executed one at a time): Model/RegConc.v models the "
@@ -337,8 +337,8 @@ EXTRA = {
            "by edcf206 (hash of the sorted ids); model, proofs (hypothesis cids_exact_on) and corpus follow. c06_spec_model: for every history over 29 operations (all collector constructors, registries, register/unregister/gather, updates, reads) "
            "with no hash collision among its descriptors (decided by computation) spec_c06 - result kinds, no trace of refused calls, gather clause - "
            "is true of the model's own run.",
-    "C07": " c07_spec_model_partial / c07_spec_strict_partial / c07_known_delimited_partial: for all histories of the covered sub-language (everything "
-           "but local metrics, timers, OpDrop, OpCustom) inside the executable domain, spec_c07 is true of the model's own run unless collectors of "
+    "C07": " c07_spec_of_model / c07_spec_of_model_strict / c07_known_class_delimited: for all histories over every operation except OpCustom "
+           "(user-written collectors) inside the executable domain, spec_c07 is true of the model's own run unless collectors of "
            "different kinds share a name, and then everything but the family type still holds (known_mixed_kinds).",
     "C08": " c08_spec_model: for EVERY history (< 2^63 operations, no FNV collision among the label tuples it uses) the executable spec written from "
            "the property text is true of the model's own run (full operation language, nothing partial).",
@@ -348,11 +348,14 @@ EXTRA = {
     "C12": " c12_spec_model: for every history of the covered language (everything the generators emit, vector forms included, arbitrary slot "
            "arguments) inside the executable domain (no FNV collision among label tuples, fewer than 2^63 observations per histogram) spec_c12 is true "
            "of the model's own run.",
-    "C14": " c14_spec_model_partial / c14_spec_strict_partial: as C07's uniform theorems, for spec_c14 / known_c14.",
+    "C14": " c14_spec_of_model / c14_spec_of_model_strict: as C07's uniform theorems, for spec_c14 / known_c14.",
     "C15": " c15_spec_model (full operation language, no collision hypothesis: the spec's own true_collision escape excuses exactly the genuine "
            "FNV-1a collisions): the executable spec is true of the model's own run; c15_oracle_silent.",
     "C18": " c18_spec_model: for every history of the covered language inside the executable domain spec_c18 (including returned seconds and the "
            "closure result) is true of the model's own run.",
+    "C20": " c20_spec_model: for EVERY arm of the harness table and EVERY value set whose custom registry new_custom accepts, the executable spec "
+           "(macro vs explicit-call twin: same result kind, same descriptor, same reaction to an update, targeted registry gathers as for the explicit "
+           "call, other registry empty, duplicate refused, nothing registered when not Ok) is true of the model's own observations.",
     "C19": " c19_spec_model: for every well-formed declaration and every allowed round (static, local and auto-flush forms) the executable spec is "
            "true of the model's own output; c19_model_obs_matches.",
 }
